@@ -195,7 +195,7 @@ def coq_eval_lists(header, terms, name="cases", chunk=400, timeout=900):
             fh.write(header + "\n")
             fh.write("Definition all_cases : list (list Z) := [\n  ")
             fh.write(";\n  ".join(part))
-            fh.write("\n]%Z.\nEval vm_compute in all_cases.\n")
+            fh.write("\n].\nEval vm_compute in all_cases.\n")
         files.append(fn)
     procs = []
     results = [None] * len(files)
